@@ -13,7 +13,7 @@ from ..paths import path_variants
 from ..tutil import (bound_args, callee_of, concat_parts, fuse_comps,
                      normalise, seq_concat, simp)
 from ..astutil import cond_terms, inside
-from ..core import AnalysisError, const_value, walk_own
+from ..core import callee_is, AnalysisError, const_value, walk_own
 from .c05 import subset_test
 from ..defuse import DefUse, Terms, show, specialise, walk_term
 from ..inline import inline_nested_closures
@@ -192,12 +192,12 @@ def _identifier_chunks(ctx, f):
     # call site
     rp = ctx.prog.func(PIN + "read_percolator")
     calls = [n for n in ast.walk(rp.node) if isinstance(n, ast.Call)
-             and ast.unparse(n.func) == "create_chunks_with_identifier"]
+             and callee_is(prog, rp, n, "create_chunks_with_identifier")]
     ctx.require(len(calls) == 1, f"{rp.qual}: call not found")
     rT = Terms(DefUse(prog, rp))
     b = {k: rT.of(v) for k, v in prog.bind(f, calls[0]).items()}
     ctor = [n for n in ast.walk(rp.node) if isinstance(n, ast.Call)
-            and ast.unparse(n.func) == "OnDiskPsmDataset"]
+            and callee_is(prog, rp, n, "OnDiskPsmDataset")]
     ctx.require(len(ctor) == 1, f"{rp.qual}: dataset constructor not found")
     kw = {k.arg: rT.of(k.value) for k in ctor[0].keywords}
     idt = b.get(p_id)
@@ -354,7 +354,7 @@ def _helpers(ctx):
         f = prog.func(HLP + name)
         fcfg = CFG(f.node)
         calls = [n for n in ast.walk(f.node) if isinstance(n, ast.Call)
-                 and ast.unparse(n.func) == "find_column"]
+                 and callee_is(prog, f, n, "find_column")]
         ctx.require(calls, f"{f.qual}: find_column call missing")
         p_c = f.params[0]
         p_def = f.params[2] if len(f.params) > 2 else None
@@ -548,7 +548,7 @@ def _read_percolator(ctx, f):
     cfg = CFG(f.node)
     H = "mokapot.parsers.helpers."
     ctor = [n for n in ast.walk(f.node) if isinstance(n, ast.Call)
-            and ast.unparse(n.func) == "OnDiskPsmDataset"]
+            and callee_is(prog, f, n, "OnDiskPsmDataset")]
     ctx.require(len(ctor) == 1, f"{f.qual}: dataset constructor not found")
     dsf = prog.func("mokapot.dataset.OnDiskPsmDataset.__init__")
     got = {k: normalise(T.of(v))
@@ -793,7 +793,7 @@ def _read_percolator(ctx, f):
             data_t is not None and callee_of(data_t) is not None and \
             callee_of(data_t)[0] == "pandas.concat"
         cats = [n for n in ast.walk(f.node) if isinstance(n, ast.Call)
-                and ast.unparse(n.func) in ("pd.concat", "pandas.concat")
+                and callee_is(prog, f, n, "pd.concat", "pandas.concat")
                 and n.args and isinstance(n.args[0], ast.Name)]
         ok = ok and len(cats) == 1 and LIST_defs is not None and bool(
             LIST_defs & {d.uid for d in du.defs_of(cats[0].args[0])})
